@@ -13,7 +13,7 @@ func init() {
 	register(&Prop{
 		ID:  "C18",
 		Run: runC18,
-		Explanation: "Decides the structural clause 'a controller removes its own finalizer only on paths on which its cleanup-complete condition is established': " +
+		Explanation: "Decides the structural clause 'a controller removes its own finalizer only on paths on which its cleanup-complete condition is established' (R18.1-R18.3), and (R18.4) that inside the teardown closure (everything reachable from doFinalising, the three handleFinalizer and the control planes' Finalize) no error of a call that can fail at the API server is lost on any path, so cleanup cannot be reported complete while one of its writes failed: " +
 			"every call util.UpdateFinalizer(_, _, Remove, <own finalizer>) in the program is enumerated through the resolved callee, every call path from a Reconcile entry point to it is walked (static calls, interface invokes resolved by types.Implements), " +
 			"and on each feasible path the union of branch facts must contain the controller's completion fact (Rollout: Terminating condition reason == Completed, and every non-comparison use of that constant is dominated by doFinalising done==true; " +
 			"BatchRelease: status phase == Completed and deletion timestamp set; TrafficRouting: FinalisingTrafficRouting done==true; canary Deployment finalizer: stable.Finalize returned nil). " +
@@ -43,6 +43,67 @@ func runC18(c *Ctx) {
 	c.Rule("R18.1b", "the Terminating reason 'Completed' is only produced after doFinalising reported done", 1)
 	c.Rule("R18.2", "for each own finalizer a removal site is reachable from the controller's Reconcile on a feasible path", 3)
 	c.Rule("R18.3", "the per-rollout progressing finalizer on TrafficRouting is removed only beneath doFinalising", 1)
+	c.Rule("R18.4", "no error inside the teardown closure is lost: 'done' cannot be reported while a cleanup write failed", 120)
+	{
+		var roots []*ssa.Function
+		for _, n := range []string{
+			"pkg/controller/rollout.RolloutReconciler.doFinalising",
+			"pkg/controller/rollout.RolloutReconciler.handleFinalizer",
+			"pkg/controller/trafficrouting.TrafficRoutingReconciler.handleFinalizer",
+			"pkg/controller/batchrelease.BatchReleaseReconciler.handleFinalizer",
+			"pkg/controller/batchrelease.Executor.progressBatches",
+			"pkg/controller/batchrelease/control/canarystyle.realCanaryController.Finalize",
+			"pkg/controller/batchrelease/control/partitionstyle.realBatchControlPlane.Finalize",
+			"pkg/controller/batchrelease/control/bluegreenstyle.realBatchControlPlane.Finalize",
+		} {
+			if f := p.Func(n); f != nil {
+				roots = append(roots, f)
+			} else if !strings.HasSuffix(n, "progressBatches") {
+				c.Unresolved("R18.4", n)
+			}
+		}
+		tear := p.ReachableFrom(roots...)
+		c.Extra["teardown_closure_functions"] = len(tear)
+		// only calls that can fail because of the API server: client calls, and repository
+		// functions that (transitively) make one
+		api := map[*ssa.Function]bool{}
+		isClient := func(ci ssa.CallInstruction) bool {
+			return strings.Contains(CalleeName(ci.Common()), "controller-runtime/pkg/client.")
+		}
+		for changed := true; changed; {
+			changed = false
+			for _, fn := range p.RepoFuncs() {
+				if api[fn] {
+					continue
+				}
+				for _, ci := range AllCalls(fn) {
+					hit := isClient(ci)
+					for _, cal := range p.Callees(ci) {
+						if api[cal] {
+							hit = true
+						}
+					}
+					if hit {
+						api[fn] = true
+						changed = true
+						break
+					}
+				}
+			}
+		}
+		c.Extra["api_reaching_functions"] = len(api)
+		checkErrorDisciplineF(c, "R18.4", func(fn *ssa.Function) bool { return tear[fn] }, func(ci ssa.CallInstruction) bool {
+			if isClient(ci) {
+				return true
+			}
+			for _, cal := range p.Callees(ci) {
+				if api[cal] {
+					return true
+				}
+			}
+			return false
+		})
+	}
 
 	deleting := need{"object is being deleted (DeletionTimestamp.IsZero() == false)", FFalse(MCall("Time.IsZero", MField("DeletionTimestamp")))}
 	owns := []ownFinalizer{
